@@ -543,6 +543,13 @@ impl NostrGroupDataExtension {
     }
 }
 
+#[cfg(feature = "verif-hooks")]
+impl NostrGroupDataExtension {
+    pub(crate) fn verif_deserialize_bytes(bytes: &[u8]) -> Result<Self, Error> {
+        Self::deserialize_bytes(bytes)
+    }
+}
+
 #[cfg(test)]
 mod tests {
     use mdk_storage_traits::test_utils::crypto_utils::generate_random_bytes;
